@@ -39,15 +39,15 @@ func c09Corpus() []c09Case {
 	}
 	return []c09Case{
 		mk("answer array longer than the request list, root step", at(0, 0, "long")),
-		mk("answer array longer than the request list, child step", at(1, 0, "long")),
+		mk("list answered for an object a child step hangs under", data(0, 0, map[string]interface{}{"top": []interface{}{}})),
+		mk("two steps deliver a list of maps whose ids are maps under the same nested key",
+			data(0, 0, map[string]interface{}{"top": map[string]interface{}{"id": "N0_0", "a": "x", "w": uncomparable}}),
+			data(1, 0, map[string]interface{}{"node": map[string]interface{}{"w": uncomparable}})),
 		mk("answer array shorter than the request list, root step", at(0, 0, "short")),
 		mk("missing data, root step", at(0, 0, "nodata")),
 		mk("data null, root step", at(0, 0, "nulldata")),
 		mk("body null", fed.WireFault{Service: 0, HTTPCall: 0, Kind: "body", Body: "null"}),
-		mk("list answered for an object a child step hangs under", data(0, 0, map[string]interface{}{"top": []interface{}{}})),
+		mk("answer array longer than the request list, child step", at(1, 0, "long")),
 		mk("missing node", data(1, 0, map[string]interface{}{})),
-		mk("two steps deliver a list of maps whose ids are maps under the same nested key",
-			data(0, 0, map[string]interface{}{"top": map[string]interface{}{"id": "N0_0", "a": "x", "w": uncomparable}}),
-			data(1, 0, map[string]interface{}{"node": map[string]interface{}{"w": uncomparable}})),
 	}
 }
